@@ -358,6 +358,9 @@ func raceSignatures(dir string) map[string]string {
 func init() {
 	runners["C15child"] = func(seed uint64, n int, outDir string, replay string) {
 		cases := loadReplayCases[C10Case](replay)
+		// an application that installed its own uniqueItems checker and restored the default the
+		// documented way (nil) before serving traffic is a legal configuration of the library
+		openapi3.RegisterArrayUniqueItemsChecker(nil)
 		for i := int(seed); i < len(cases); i++ {
 			fmt.Printf("start %d\n", i)
 			os.Stdout.Sync()
